@@ -28,6 +28,11 @@ func C04(c *Ctx) {
 	r.Rule("C04-b", "builder.funcName must be injective on (rule name, index): the decimal index must be preceded by a constant separator ending in a non-digit, because rule names may end in digits")
 	r.Rule("C04-c", "the name in `run: (*parser).call<N>` and the name of the emitted on<N>/call<N> pair are both funcName(X.FuncIx) of the same node under the same b.ruleName; parameter list and stack[...] argument list range over the same argsStack entry; exprIndex is incremented once per writeExpr and reset per rule")
 	r.Rule("C04-d", "every class name accepted by the front-end (unicodeClasses table and the single-letter class of the grammar) is a key of unicode.Categories, unicode.Properties or unicode.Scripts in the toolchain's unicode/tables.go, and rangeTable consults exactly those maps")
+	r.Rule("C04-g", "BuildParser applies its options and then builds; buildParser's accepting path runs PrepareGrammar → b.haveLeftRecursion → writeInit → writeGrammar → writeRuleCode per rule → writeStaticCode → return b.err in this order, and its rejecting paths return their own error and write nothing")
+	r.Rule("C04-h", "every field of the builder struct that is read has a store that can give it a non-zero value")
+	r.Rule("C04-i", "write primitives: writef/writeln write their text to b.w exactly when no earlier write failed and keep the error; writelnf forwards to writef")
+	r.Rule("C04-j", "code writers: nil → nothing; a node with a pending method (FuncIx != 0) gets writeFunc(FuncIx, Code, templates) and FuncIx cleared; writeInit writes a present initializer; rule passes skip exactly nil/unnamed rules; writeFunc lists every label of the innermost scope in both the signature and the call stub")
+	r.Rule("C04-k", "writeExprCode, per kind: every Expression child is visited, the code writer of a code kind is called, a label is registered in the enclosing scope before the operand's scope opens - all unconditionally")
 	r.Rule("C04-e", "builder.writeStaticCode feeds the template exactly the five parameters the template references, each wired to the expected builder field, and strips directive comments with the regular expressions the checker reuses")
 
 	src, sk := c.Src(), c.Skel()
@@ -147,6 +152,7 @@ func C04(c *Ctx) {
 	r.Analysed["template_parameters"] = refl
 	c04Pipeline(c, g)
 	c04Flags(c, g)
+	builderFlow(c, g)
 	// formatting options of imports.Process (comments must survive: nolint markers, generated-code header)
 	if mf := load.FuncDecl(g.Pkg(""), "", "main"); mf != nil {
 		got := map[string]string{}
